@@ -178,30 +178,37 @@ def isAsciiDigit (c : Char) : Bool := decide ('0'.toNat ≤ c.toNat) && decide (
 /-- `ASCII_DIGIT*` -/
 def digits : Inp → List Char × Inp
   | [] => ([], [])
-  | c :: r => if isAsciiDigit c then let (m, r') := digits r; (c :: m, r') else ([], c :: r)
+  | c :: r => if isAsciiDigit c then let p := digits r; (c :: p.1, p.2) else ([], c :: r)
+
+/-- `("-"|"\\-")?` : the sign text and the rest -/
+def numSign (s : Inp) : List Char × Inp :=
+  match s with
+  | [] => ([], [])
+  | c :: r =>
+    if c = '-' then (['-'], r)
+    else if c = '\\' then
+      (match r with
+       | [] => ([], s)
+       | d :: r' => if d = '-' then (['\\', '-'], r') else ([], s))
+    else ([], s)
+
+/-- `ASCII_DIGIT+ ~ ("." ~ ASCII_DIGIT+)?` -/
+def numUnsigned (s : Inp) : Option (List Char × Inp) :=
+  let ip := digits s
+  if ip.1.isEmpty then none
+  else
+    match ip.2 with
+    | [] => some (ip.1, [])
+    | c :: r2 =>
+      if c = '.' then
+        let fp := digits r2
+        if fp.1.isEmpty then some (ip.1, c :: r2) else some (ip.1 ++ '.' :: fp.1, fp.2)
+      else some (ip.1, c :: r2)
 
 /-- `NUM_VALUE = _{ ("-"|"\\-")? ~ ASCII_DIGIT+ ~ ("." ~ ASCII_DIGIT+)? }` -/
 def numValue (s : Inp) : Option (List Char × Inp) :=
-  let (sign, r0) : List Char × Inp :=
-    match s with
-    | [] => ([], s)
-    | c :: r =>
-      if c = '-' then (['-'], r)
-      else if c = '\\' then
-        (match r with
-         | d :: r' => if d = '-' then (['\\', '-'], r') else ([], s)
-         | [] => ([], s))
-      else ([], s)
-  let (ip, r1) := digits r0
-  if ip.isEmpty then none
-  else
-    match r1 with
-    | [] => some (sign ++ ip, r1)
-    | c :: r2 =>
-      if c = '.' then
-        let (fp, r3) := digits r2
-        if fp.isEmpty then some (sign ++ ip, r1) else some (sign ++ ip ++ ['.'] ++ fp, r3)
-      else some (sign ++ ip, r1)
+  let sg := numSign s
+  (numUnsigned sg.2).map fun p => (sg.1 ++ p.1, p.2)
 
 /-- `NUMERIC_TERM = ${ NUM_VALUE ~ ("E" ~ NUM_VALUE)? }` -/
 def numericTerm (s : Inp) : Option (List Char × Inp) :=
